@@ -6,6 +6,7 @@ import (
 	"fmt"
 	"hash/fnv"
 	"go/ast"
+	"go/parser"
 	"go/constant"
 	"go/token"
 	"go/types"
@@ -724,6 +725,9 @@ func (ex *Exec) enterBlock(f *Frame, st *State, b, prev *ssa.BasicBlock) bool {
 
 // atReturn checks the postconditions of the function under contract.
 func (ex *Exec) atReturn(f *Frame, st *State, ret *ssa.Return, res []Val) {
+	if f.con != nil && (f.con.HasMod || f.con.Pure) {
+		ex.checkFrame(f, st, ret)
+	}
 	if f.con == nil || len(f.con.Ensures) == 0 {
 		return
 	}
@@ -1691,4 +1695,107 @@ func (ex *Exec) loadAlternatives(f *Frame, st *State, x *ssa.UnOp) []loadAlt {
 		alts = append(alts, loadAlt{cond: mkEq(p.Idx, bvLit(uint64(k), 64)), val: ex.w.snapshot(st, e)})
 	}
 	return alts
+}
+
+// checkFrame: with an explicit modifies clause (or pure), every write of the body
+// to memory that existed at entry must be covered by the clause. Writes by
+// callees without a contract are not tracked (ASSUMPTION, listed).
+func (ex *Exec) checkFrame(f *Frame, st *State, ret *ssa.Return) {
+	type perm struct {
+		obj  *Obj
+		path []PathElem
+		arr  *ArrObj
+	}
+	var perms []perm
+	if !f.con.Pure {
+		ec := ex.ectx(f, ex.entry)
+		for _, m := range f.con.Modifies {
+			func() {
+				defer func() {
+					if r := recover(); r != nil {
+						if _, ok := r.(exprErr); !ok {
+							panic(r)
+						}
+					}
+				}()
+				e, err := parser.ParseExpr(strings.TrimSpace(m))
+				if err == nil {
+					if sel, ok := e.(*ast.SelectorExpr); ok {
+						base := ec.eval(sel.X)
+						if p, ok := base.V.(VPtr); ok && base.T != nil {
+							if pt, ok := under(base.T).(*types.Pointer); ok {
+								if idx, _ := findField(pt.Elem(), sel.Sel.Name); len(idx) >= 1 {
+									pp := append([]PathElem(nil), p.Path...)
+									for _, k := range idx {
+										pp = append(pp, PathElem{Field: k})
+									}
+									perms = append(perms, perm{obj: p.Root, path: pp})
+									return
+								}
+							}
+						}
+					}
+				}
+				tv := ec.evalSrc(m)
+				switch v := tv.V.(type) {
+				case VPtr:
+					perms = append(perms, perm{obj: v.Root, path: v.Path, arr: v.Arr})
+				case VSlice:
+					perms = append(perms, perm{arr: v.A})
+				case VIface:
+					if p, ok := v.Val.(VPtr); ok {
+						perms = append(perms, perm{obj: p.Root, path: p.Path})
+					}
+				}
+			}()
+		}
+	}
+	allowed := func(wr writeRec) bool {
+		for _, p := range perms {
+			if wr.arr != nil && p.arr == wr.arr {
+				return true
+			}
+			if wr.obj != nil && p.obj == wr.obj && len(p.path) <= len(wr.path) {
+				ok := true
+				for i := range p.path {
+					if p.path[i] != wr.path[i] {
+						ok = false
+					}
+				}
+				if ok {
+					return true
+				}
+			}
+		}
+		return false
+	}
+	bad := ""
+	for _, wr := range st.writes {
+		if wr.arr != nil && wr.arr.Fresh {
+			continue
+		}
+		if wr.arr == nil && (wr.obj == nil || wr.obj.Local) {
+			continue
+		}
+		if !allowed(wr) {
+			name := ""
+			if wr.obj != nil {
+				name = wr.obj.Name
+			} else {
+				name = wr.arr.Sym
+			}
+			bad = fmt.Sprintf("%s of memory that existed at entry (%s), not covered by the modifies clause", wr.what, name)
+			break
+		}
+	}
+	p, src := ex.posOf(ret.Pos())
+	o := &Obligation{Name: ex.name + "#frame", Class: "frame", Fn: ex.name, Pos: p, Src: src, Goal: "true",
+		Desc: "the body writes only what the modifies clause names", Trace: append([]string(nil), st.trace...)}
+	if bad == "" {
+		o.Res = SolveResult{Status: "unsat", Backend: "syntactic"}
+	} else {
+		o.Goal, o.Desc = "false", bad
+		o.Res = SolveResult{Status: "sat", Backend: "syntactic", Output: bad}
+	}
+	ex.obls = append(ex.obls, o)
 }
